@@ -16,7 +16,7 @@ git -C /repo worktree add -q --detach "$wt" HEAD || exit 2
 trap 'git -C /repo worktree remove --force "$wt" >/dev/null 2>&1; rm -rf "$wt"' EXIT
 cd "$wt"
 # demo without the change
-cp "$src/$demo" "$wt/$pkg/"
+mkdir -p "$wt/$pkg"; cp "$src/$demo" "$wt/$pkg/"
 go test -vet=off -count=1 -run "$pat" "./$pkg" >"$out/demo_without.log" 2>&1; dw=$?
 if ! git apply "$out/patch.diff" 2>"$out/apply.err"; then echo "SEED $name: patch does not apply to current HEAD: $(head -3 $out/apply.err)"; exit 2; fi
 rm -f "$out/apply.err"
